@@ -5,9 +5,46 @@
 //                                (0 <-> 0), and 0 is returned when neither branch crosses a keystone
 //                                boundary above their fork point
 // Every line "<id> <op...>"; oracle failures are printed as "!<id> <text>".
+//   begin ... ta=1               the VBK (security providing) parameters of this session report
+//                                EnableTimeAdjustment() == true (regtest returns false, so the time-adjustment
+//                                branch of internal::getKeystoneContext is otherwise never executed)
+//   altts <a> <parent> <ts>      like `alt`, with an explicit ALT block timestamp (hex)
+//   vts <v> / ats <a>            timestamp of a VBK / ALT block of the registry (hex)
+//
+// world.hpp (shared, not edited) derives its VBK parameters from VbkChainParamsRegTest. To switch time
+// adjustment on without touching it, every library header it includes is included first (include guards make
+// them no-ops later) and the name VbkChainParamsRegTest is redirected, for world.hpp only, to a subclass of the
+// real regtest parameters whose EnableTimeAdjustment() reads a flag.
+#include <veriblock/pop/alt-util.hpp>
+#include <veriblock/pop/blockchain/alt_block_tree.hpp>
+#include <veriblock/pop/blockchain/alt_chain_params.hpp>
+#include <veriblock/pop/blockchain/btc_chain_params.hpp>
+#include <veriblock/pop/blockchain/vbk_chain_params.hpp>
+#include <veriblock/pop/bootstraps.hpp>
 #include <veriblock/pop/keystone_util.hpp>
+#include <veriblock/pop/logger.hpp>
+#include <veriblock/pop/mempool.hpp>
+#include <veriblock/pop/mock_miner.hpp>
+#include <veriblock/pop/rewards/default_poprewards_calculator.hpp>
+#include <veriblock/pop/storage/adaptors/block_provider_impl.hpp>
+#include <veriblock/pop/storage/adaptors/inmem_storage_impl.hpp>
+#include <veriblock/pop/storage/adaptors/payloads_provider_impl.hpp>
+#include <veriblock/pop/storage/util.hpp>
+#include <veriblock/pop/time.hpp>
 
+namespace altintegration {
+struct VbkRegTestTimeAdjustable : public VbkChainParamsRegTest {
+  static bool& flag() {
+    static bool f = false;
+    return f;
+  }
+  bool EnableTimeAdjustment() const noexcept override { return flag(); }
+};
+}  // namespace altintegration
+
+#define VbkChainParamsRegTest VbkRegTestTimeAdjustable
 #include "world.hpp"
+#undef VbkChainParamsRegTest
 
 using namespace altintegration;
 
@@ -16,6 +53,36 @@ int main() {
   setMockTime(1700000000);
   vw::Session s;
   return vh::main_loop([&](const std::string& id, const std::string& op, const std::vector<std::string>& a) {
+    if (op == "begin") {
+      bool ta = false;
+      for (auto& x : a) if (x == "ta=1") ta = true;
+      VbkRegTestTimeAdjustable::flag() = ta;
+    }
+    if (op == "altts") {
+      if (!s.reg || a.size() != 3) return std::string("SKIP");
+      auto& R = *s.reg;
+      if (R.alt.count(a[0]) || !R.alt.count(a[1])) return std::string("SKIP");
+      vw::AltInfo n;
+      const auto& pb = R.alt[a[1]].block;
+      n.block.hash = vw::Registry::altHash(std::stoi(a[0].substr(1)));
+      n.block.height = pb.height + 1;
+      n.block.previousBlock = pb.getHash();
+      n.block.timestamp = (uint32_t)vh::parse_hex64(a[2]);
+      n.parent = a[1];
+      ValidationState st;
+      if (!R.ref.acceptBlockHeader(n.block, st)) return "SKIP " + st.GetPath();
+      R.alt[a[0]] = n;
+      R.name(n.block.getHash(), a[0]);
+      return std::string("ok");
+    }
+    if (op == "vts") {
+      if (!s.reg || a.size() != 1 || !s.reg->vbk.count(a[0])) return std::string("SKIP");
+      return vh::hexnum(s.reg->vbk.at(a[0]).getTimestamp());
+    }
+    if (op == "ats") {
+      if (!s.reg || a.size() != 1 || !s.reg->alt.count(a[0])) return std::string("SKIP");
+      return vh::hexnum(s.reg->alt.at(a[0]).block.timestamp);
+    }
     if (op == "duel") {
       if (!s.reg || a.size() != 4) return std::string("SKIP");
       auto ix = s.inst.find(a[0]), iy = s.inst.find(a[1]);
